@@ -85,13 +85,18 @@ Res eval(F f) {
 
 PBT_PROPERTY(string_view) {
     int q = (int)src.range(0, 79); // selectors first: short buffers must still reach every query
-    std::string hs = gen_str(src, 10, false);
-    std::string ns = gen_str(src, 6, false);
+    // scale class (1 in 16): long haystacks / needles, so that size-dependent paths of the search
+    // routines (unrolled loops, memchr/memcmp hand-offs, clamps against large sizes) are sampled too
+    const bool longcase = src.weighted({15, 1}) == 1;
+    const size_t maxh = longcase ? (src.boolean() ? 300 : 70) : 10, maxn = longcase ? 40 : 6;
+    std::string hs = gen_str(src, maxh, false);
+    std::string ns = gen_str(src, maxn, false);
+    if (longcase) pbt::label("long_strings");
     // the needle is often derived from the haystack so that hits are common
     switch (src.range(0, 3)) {
     case 1:
         if (!hs.empty()) {
-            size_t b = src.index(hs.size()), l = (size_t)src.range(0, 4);
+            size_t b = src.index(hs.size()), l = (size_t)src.range(0, longcase ? 40 : 4);
             ns = hs.substr(b, l);
         }
         break;
